@@ -40,6 +40,17 @@ CLAIMED.update({
         note="Trusted: the ground-truth ordering model (MultiDict grouping). Names exclude the characters the property excludes.",
         technique="deterministic simulation: encoder event-splitting histories x file short reads x transport fragmentation, conservation oracle against ground truth",
     ),
+    "C10": dict(
+        category="exploration",
+        text="Form-limit simulation over the real decoder / MultiPartParser / FormDataParser / Request: bodies built around each limit (fields of limit-1/limit/limit+1 bytes, many small "
+        "parts, huge header block, no delimiter at all, CR/LF-only lines, urlencoded) x limit configurations relative to the body x framing (declared length, server-terminated, "
+        "chunked) x buffer size and short-read tape, with truncation and OSError as a separate fault configuration. A spy subclass of the real decoder records the buffer size after "
+        "every receive_data; bytes taken from the input are counted. Outcome oracle: success implies every limit was respected AND the result equals the parse without limits under the "
+        "same schedule; only 413 / ClientDisconnected (under faults) / the unlimited parse's own ValueError may be raised.",
+        design_ref="3.7",
+        note="One-directional like the property (a 413 is only flagged as spurious when every limit is at least the whole body size). Known finding L2 is recorded in known_findings.json.",
+        technique="deterministic simulation: limit configurations x fragmenting, fault-injecting input stream, buffer monitor + differential oracle against the unlimited parse",
+    ),
 })
 
 NOT_APPLICABLE = {
